@@ -368,6 +368,8 @@ def valkey(v) -> str:
         return f"closure:{v.name}"
     if isinstance(v, BoundExt):
         return f"bound:{valkey(v.recv)}.{v.name}"
+    if isinstance(v, DictV) and getattr(v, "comp", None) is not None:
+        return "{" + valkey(v.comp["key"]) + ":" + valkey(v.comp["value"]) + " for elem(" + valkey(v.comp["iter"]) + ")}"
     if isinstance(v, DictV):
         return "{" + ",".join(valkey(k) + ":" + valkey(x) for k, x in v.items) + "}"
     if v is None:
